@@ -738,23 +738,13 @@ struct OverflowError;
 pub struct EventReader {
     max_seen_event_number: u64,
     next_max_seen_event_number: u64,
-    /// Whether the originating Read/Subscribe request had `fabricFiltered=true`.
-    /// When set, fabric-sensitive events (those whose payload carries a
-    /// `FabricIndex` context-tag 254) are dropped if their fabric index does
-    /// not match the accessor's. See Matter Core spec.
-    fabric_filtered: bool,
 }
 
 impl EventReader {
-    pub const fn new(
-        max_seen_event_number: u64,
-        next_max_seen_event_number: u64,
-        fabric_filtered: bool,
-    ) -> Self {
+    pub const fn new(max_seen_event_number: u64, next_max_seen_event_number: u64) -> Self {
         Self {
             max_seen_event_number,
             next_max_seen_event_number,
-            fabric_filtered,
         }
     }
 
@@ -804,7 +794,9 @@ impl EventReader {
         accessor: &Accessor<'_>,
         tw: &mut WriteBuf<'_>,
     ) -> Result<bool, Error> {
-        if self.fabric_filtered && !Self::matches_fabric(&event, accessor) {
+        // Regardless of the `fabricFiltered` flag of the request: that flag only
+        // governs the filtering of fabric-scoped list attributes
+        if !Self::matches_fabric(&event, accessor) {
             return Ok(false);
         }
 
@@ -821,9 +813,10 @@ impl EventReader {
     }
 
     /// Per Matter Core spec (Fabric-Sensitive Reporting):
-    /// When `fabricFiltered=true`, fabric-sensitive events (those whose payload
-    /// carries a `FabricIndex` field at context tag 254) SHALL only be reported
-    /// to the requesting fabric.
+    /// Fabric-sensitive events (those whose payload carries a `FabricIndex`
+    /// field at context tag 254) SHALL only be reported to their associated
+    /// fabric, i.e. never to an accessor on another fabric - whether or not the
+    /// request is fabric-filtered.
     ///
     /// Events without a `FabricIndex` field are not fabric-sensitive and pass
     /// through unfiltered. Events with a `FabricIndex` field that matches the
